@@ -364,8 +364,8 @@ class LiteralMethod(DeserializationMethod):
                     try:
                         coerced = self.coercer(cls, data)
                         return self.value_map[isinstance(coerced, bool), coerced]
-                    except (KeyError, TypeError):
-                        pass
+                    except (KeyError, TypeError, ValidationError):
+                        pass  # try the other types of the literal values
             raise ValidationError(format_error(self.error, data))
         except TypeError:
             raise bad_type(data, *self.types)
